@@ -144,7 +144,31 @@ def r2_iter(chk, ens):
         return
     # the returned iterator must not read a cursor stored on self
     cursor = any(isinstance(n, ast.Attribute) and n.attr.startswith("_current") for r in rets for n in ast.walk(r.value))
-    chk.decide(not cursor, "C14.R2", key, it.where(rets[0]), f"returns `{short(rets[0].value, 50)}`", "the iterator handed out reads a cursor stored on the ensemble")
+    # ... nor advance one: the code behind the returned iterator (methods of self it is made of, transitively) must not store
+    # into attributes of the ensemble - that state would be shared by every loop running over the same ensemble
+    seen, todo, shared = set(), [], []
+    for r in rets:
+        for c in ast.walk(r.value):
+            if isinstance(c, ast.Call) and isinstance(c.func, ast.Attribute) and norm(c.func.value) == "self":
+                todo.append(c.func.attr)
+    while todo:
+        nm = todo.pop()
+        if nm in seen:
+            continue
+        seen.add(nm)
+        m_ = prog.method(ens, nm)
+        if m_ is None:
+            continue
+        chk.analysed(m_)
+        for s_ in walk_no_nested(m_.node):
+            if isinstance(s_, (ast.Assign, ast.AugAssign)) and any(p_.startswith("self.") for p_ in stored_paths(s_)):
+                shared.append((m_, s_))
+            if isinstance(s_, ast.Call) and isinstance(s_.func, ast.Attribute) and norm(s_.func.value) == "self" and s_.func.attr not in ("__getitem__",):
+                todo.append(s_.func.attr)
+    chk.decide(not cursor and not shared, "C14.R2", key, it.where(rets[0]), f"returns `{short(rets[0].value, 50)}`",
+               "the iterator handed out reads a cursor stored on the ensemble" if cursor else
+               (f"the iterator handed out runs `{short(shared[0][1], 50)}` in {shared[0][0].qualname}: it advances a cursor stored on the ensemble, which every loop over the same ensemble shares "
+                "(nested loops over 7 conformers visit 7 pairs instead of 49)" if shared else ""))
     gi = prog.method(ens, "__getitem__")
     chk.require(gi is not None, "ConformerEnsemble.__getitem__ vanished")
     ok = "Conformer(self, _i)" in norm(gi.node) or "Conformer(self," in norm(gi.node)
